@@ -263,12 +263,21 @@ class Summary:
                         k = self._alloc_kind((cb.id, "ret", t[1], ()))
                         if k and k[0] in ("int", "flag", "optcell", "cont"):
                             return k
-                elif t[0] == "agg":
-                    rv2 = cb.blocks[t[1][0]]["stmts"][t[1][1]]["rv"]
-                    if rv2.get("ak") == "adt":
-                        r_ = descend(cb, rv2, norm(rv2.get("def") or ""), rest[1:], depth + 1)
-                        if r_:
-                            return r_
+                else:
+                    # the nested state struct, possibly behind Arc::new / Box::new
+                    cands = [t]
+                    if t[0] == "ret" and not t[2]:
+                        k = cb.call_at(t[1])
+                        if k is not None and k.path.split("::")[-1] == "new" and k.path.startswith("std::") and k.args:
+                            cands = list(cb.operand_prov(k.args[0]))
+                    for t2 in cands:
+                        if t2[0] != "agg":
+                            continue
+                        rv2 = cb.blocks[t2[1][0]]["stmts"][t2[1][1]]["rv"]
+                        if rv2.get("ak") == "adt":
+                            r_ = descend(cb, rv2, norm(rv2.get("def") or ""), rest[1:], depth + 1)
+                            if r_:
+                                return r_
             return None
 
         for cb in self.P.bodies.values():
@@ -518,6 +527,7 @@ class Summary:
                     p.note.append("untracked store to the counter at line %s" % line)
             elif kind and kind[0] == "flag":
                 p.cells[g] = v if (len(gs) == 1 and is_bool(v)) else TOP
+                p.trace.append(("set_flag",))
             elif kind and kind[0] == "optcell":
                 if len(gs) == 1 and isinstance(v, tuple) and v and v[0] == "opt" and is_bool(v[1]):
                     p.cells[g] = v[1]
@@ -741,6 +751,7 @@ class Summary:
                 arg = self.operand(p, c.args[1]) if len(c.args) > 1 else TOP
                 if name in ("store", "swap") and is_bool(arg):
                     p.cells[g] = arg
+                    p.trace.append(("set_flag",))
                     return done(p, old)
                 if name == "fetch_or" and is_bool(arg):
                     p.cells[g] = ("or", old, arg)
@@ -974,7 +985,7 @@ class Summary:
             if isinstance(v, tuple) and v and v[0] in ("opt", "item", "front", "back", "bufcopy", "window", "int", "tuple", "captured",
                                                        "stored", "mapped", "error", "bvar", "bconst", "combined", "adt", "itemfield",
                                                        "boxed", "res", "cmp", "not", "and", "or", "elem"):
-                if v[0] == "opt" and path.endswith("unwrap"):
+                if v[0] == "opt" and path in ("std::option::Option::unwrap", "std::option::Option::expect"):
                     return done(p, v[2])
                 return done(p, v)
             return done(p)
@@ -1010,6 +1021,25 @@ class Summary:
                         return
                     p.trace.append(("sink_next", "other"))
                     return done(p)
+        if path.startswith("std::iter::Iterator::") and c.args and self.sink_param is None and self.sink_upvar is None:
+            emitting = [t_ for t_ in self.E.inline_targets(c) if self.E.may(t_) & {"sink_next"}
+                        and not (self.E.may(t_) & {"sink_complete", "sink_complete_force", "sink_error"})]
+            if emitting:
+                # items handed downstream from inside an iterator consumer (flush by for_each / try_for_each): once per element
+                gs = self._gcells(b.operand_prov(c.args[0])) or set()
+                kinds = {(self._alloc_kind((g[0], g[1], g[2], ())) or ("?",))[0] for g in gs}
+                kind = "elem" if kinds == {"cont"} else "other"
+                polls = any(atom(x) == "is_subscribed" for t_ in emitting for x in t_.calls)
+                if polls:
+                    q = p.fork()
+                    p.pc.append(("bvar", "in:live"))
+                    p.trace.append(("sink_next", kind))
+                    done(p)
+                    q.pc.append(b_not(("bvar", "in:live")))
+                    done(q)
+                    return
+                p.trace.append(("sink_next", kind))
+                return done(p)
         # anything else: a crate-local call that may emit is outside the abstraction
         cb = self.E.callee_body(c)
         if cb is not None and "subscribe" in self.E.may(cb) and not (self.E.may(cb) & {"sink_next", "sink_complete", "sink_complete_force", "sink_error"}):
@@ -1213,7 +1243,7 @@ class Summary:
 
 
 # ---- operator tables ------------------------------------------------------------------------
-ALPHABET = {"user_fn", "remember", "combine", "reversed", "subscribe", "sub_unsubscribe", "resubscribe", "map_insert", "sink_next", "sink_complete", "sink_complete_force", "sink_error", "abort", "finalize", "push_back", "push_front",
+ALPHABET = {"user_fn", "remember", "combine", "reversed", "subscribe", "sub_unsubscribe", "resubscribe", "map_insert", "set_flag", "sink_next", "sink_complete", "sink_complete_force", "sink_error", "abort", "finalize", "push_back", "push_front",
             "pop_front", "pop_back", "clear", "take_all", "window_next", "window_complete", "window_error", "store",
             "panic", "loop", "opaque", "cont_replace", "cont_truncate", "cont_drain", "cont_retain", "cont_remove",
             "cont_insert", "cont_append", "cont_extend", "cont_split_off", "cont_resize", "cont_swap_remove"}
